@@ -22,6 +22,30 @@ CHECKS = {
         "assumptions": ["NaN elements are excluded (C07/C08 own NaN equality)", "Sort results are checked as ordered permutations; ShuffleValues as a permutation",
                         "a call is judged 'never returns' after 60 s (calls normally take microseconds)"],
     },
+    "C02": {
+        "parts": [{"pkg": "seq", "test": "TestC02", "subs": ["history", "insertion-orders"]}],
+        "technique": "model-based stateful property testing (rapid) against a sorted duplicate-free reference set + exhaustive enumeration of insertion orders",
+        "level_text": "Generated histories over the Set constructors and operations, five element types (int, string, []int, any, nested sets) and three collators (default, reversed and coarse harness collators that are total preorders by construction) are compared after every call with a mathematical set kept by an independent comparator: content, strict ascent under the set's own collator, size, iteration, ContainsValue/GetIndex/GetValue agreement for every value of the small domain. Every insertion order of every subset of {1..6}, each followed by every single removal and re-insertion, is enumerated for the default and the reversed collator (1957 orders x 2 x 8).",
+        "level_note": "For element types whose cross-type order is implementation defined (any, nested sets) membership is compared as an unordered set and order is checked as an invariant under the set's own collator (that collator's correctness is C07's subject).",
+        "rule": "history: constructor x collator x element type x small(8)/large(64) value domain x insertion-order mood x 1..40 operations; non-trivial = a duplicate (or rank-equal) AddValue happened, a RemoveValue hit an absent value or a boundary member, and size >= 3 was reached. insertion-orders: exhaustive. distinct = distinct decoded cases.",
+        "assumptions": ["caller-supplied collators are total preorders (stated by the property); the harness collators are, by construction"],
+    },
+    "C03": {
+        "parts": [{"pkg": "seq", "test": "TestC03", "subs": ["history", "small-histories"]}],
+        "technique": "model-based stateful property testing (rapid) against an ordered association list + exhaustive enumeration of short histories",
+        "level_text": "Generated histories over the four constructors and all Associative/Sortable operations, six key types (string, int, rune, float64, any, pointer keys with structurally equal pointees), values repeating across keys, are compared after every call with an ordered list of (key,value) pairs: GetValue for every key of the universe (present and absent), GetKeys, size, AsArray pairs and iteration must all describe the same associations in the same order; sort/reverse/shuffle may only permute. All histories of up to 3 (quick) / 4 (thorough) operations over 3 keys are enumerated for string and pointer keys.",
+        "level_note": "Keys are compared with Go == (identity for pointers). Where order is unspecified (MakeFromMap, ShuffleValues, ties of a ranker) the model adopts the catalog's order after checking it is a permutation. NaN keys are excluded.",
+        "rule": "history: constructor (with repeated keys in the initial data) x key type x 1..40 operations over an 8-key universe and values 0..3; non-trivial = a removal, overwrite or reorder happened while >= 2 associations were present, followed by look-ups (every step reads every key of the universe). small-histories: exhaustive. distinct = distinct decoded cases.",
+        "assumptions": ["sorting is checked as: permutation, mapping unchanged, keys non-descending under the reference order (pointer keys: by pointee; any keys: under a fresh Collator[any])"],
+    },
+    "C14": {
+        "parts": [{"pkg": "seq", "test": "TestC14", "subs": ["history", "small-histories"]}],
+        "technique": "model-based stateful property testing (rapid) against a Go map + exhaustive enumeration of short histories",
+        "level_text": "Generated histories over the four Map constructors (with repeated keys: the last value must win) and the Associative/Sequential methods, key types string, int, rune and any, are compared after every call with a reference association list: GetValue for every universe key, GetValues/RemoveValue(s) results (zero for absent keys), size, and the unordered views (GetKeys, AsArray, iteration) as sets with each association exactly once. All histories up to 3/4 operations over 3 keys are enumerated.",
+        "level_note": "Unordered views are compared as sets; RemoveAll is also exercised while a key snapshot and an iterator are held.",
+        "rule": "history: constructor x key type x 1..40 operations; non-trivial = at least one removal or overwrite at size >= 2. distinct = distinct decoded cases.",
+        "assumptions": [],
+    },
     "C13": {
         "parts": [{"pkg": "seq", "test": "TestC13", "subs": ["history", "words", "ctor-sizes"], "thorough_shards": 8}],
         "technique": "model-based stateful property testing (rapid) against a top-first slice model + exhaustive enumeration of push/pop words and constructor sizes",
